@@ -22,6 +22,7 @@ type dbOptSet struct {
 	WriteBuf    uint64
 	Live        bool
 	IntervalMs  int
+	IntervalUs  int // overrides IntervalMs when > 0
 	Async       bool
 	DirectIOWAL bool
 }
@@ -57,7 +58,11 @@ func (o dbOptSet) Options() []simpledb.ExtraOption {
 		simpledb.WriteBufferSizeBytes(o.WriteBuf),
 	}
 	if o.Live {
-		opts = append(opts, simpledb.CompactionRunInterval(time.Duration(o.IntervalMs)*time.Millisecond))
+		iv := time.Duration(o.IntervalMs) * time.Millisecond
+		if o.IntervalUs > 0 {
+			iv = time.Duration(o.IntervalUs) * time.Microsecond
+		}
+		opts = append(opts, simpledb.CompactionRunInterval(iv))
 	} else {
 		opts = append(opts, simpledb.DisableCompactions())
 	}
